@@ -63,11 +63,13 @@ def run(ctx):
             route = ctx.rng.choice(['parse', 'parse', 'parse', 'enforce', 'load'])
             cases.append(pc.record_text(toks, lang.render(toks, ctx.rng, wide=True), route, 'c01'))
     lang.install_http_stub()
+    from harness import ev as _ev
+    _ev.install_probes()
     # every kind of leaf check (not only role:), and the same expression spelled with upper-case attribute /
     # rule / placeholder names right after the lower-case one: a different rule, decided on its own keys
     for i in range(120 if q else 3000):
         off = ctx.rng.randrange(6)
-        kinds = lang.LeafEnv.WITH_HTTP if i % 3 == 0 else lang.LeafEnv.ALL
+        kinds = [lang.LeafEnv.WITH_HTTP + lang.LeafEnv.EXTRA, lang.LeafEnv.ALL + lang.LeafEnv.EXTRA, lang.LeafEnv.ALL][i % 3]
         lo, up = lang.LeafEnv(kinds, off), lang.LeafEnv(kinds, off, upper=True)
         tree = lang.random_tree(ctx.rng, ctx.rng.choice([2, 3, 5, 8]), ctx.rng.randint(1, 5))
         toks = lang.tree_tokens(tree, ctx.rng)
